@@ -15,6 +15,7 @@ import (
 
 var c13Texts = map[string]string{
 	// fail on their very first token (error paths that run before anything was set up)
+	"eoi":     "a := 1 +", // ends prematurely: the error has no position, only a source
 	"lexerr":  "@ a := 1",
 	"lexerr2": "\"abc",
 	"if":      "if a { b }",
@@ -89,6 +90,8 @@ func init() {
 	scs = append(scs, sc{"parse-if+maplit+for", []string{"if", "maplit", "for"}, false, 1, 2, false})
 	scs = append(scs, sc{"parse-if+if+nestmap", []string{"if", "if", "nestmap"}, false, 1, 2, false})
 	// parses that fail on their first token (in the sequential phase and again concurrently) next to valid ones
+	scs = append(scs, sc{"parse-eoi+eoi", []string{"eoi", "eoi"}, false, 2, 3, false})
+	scs = append(scs, sc{"parse-eoi+err+eoi", []string{"eoi", "err", "eoi"}, false, 1, 2, false})
 	scs = append(scs, sc{"parse-lexerr+if+maplit", []string{"lexerr", "if", "maplit"}, false, 1, 2, false})
 	scs = append(scs, sc{"parsert-lexerr2+for+ifmap", []string{"lexerr2", "for", "ifmap"}, true, 1, 2, false})
 	scs = append(scs, sc{"eval-interp+maplit", []string{"interp", "maplit"}, true, 1, 2, true})
@@ -112,9 +115,10 @@ func init() {
 					}
 					parse := func(i int) (*parser.ASTNode, error) {
 						if c.withRT {
-							return parser.ParseWithRuntime("t", c13Texts[c.texts[i]], envs[i].erp)
+							return parser.ParseWithRuntime(fmt.Sprintf("t%d", i), c13Texts[c.texts[i]], envs[i].erp)
 						}
-						return parser.Parse("t", c13Texts[c.texts[i]])
+						// every parse has its own source name: an error must name the source it belongs to
+						return parser.Parse(fmt.Sprintf("t%d", i), c13Texts[c.texts[i]])
 					}
 					// sequential reference first (single thread: no scheduling points)
 					for i := range c.texts {
